@@ -32,7 +32,11 @@ fn throw_err(e: Error, c_err: *mut *const CErr) -> c_int {
     if !c_err.is_null() {
         CERR.with(|tc_err| {
             let mut tc_err = tc_err.borrow_mut();
+            #[cfg(feature = "verif_hooks")]
+            crate::verif_hooks::step("throw_err:before_store");
             tc_err.description_cs = CString::new(e.to_string()).unwrap();
+            #[cfg(feature = "verif_hooks")]
+            crate::verif_hooks::step("throw_err:after_store");
             unsafe { *c_err = &*tc_err };
         });
     }
